@@ -52,6 +52,14 @@ def add(ro, m):
     return res, classify_status(err), moswarn_names(w), err
 
 
+def completed_of(ro):
+    """what the accessor ro.completed reports (False when it raises: never equal to a completed document)"""
+    try:
+        return bool(ro.completed)
+    except Exception:  # noqa: BLE001
+        return False
+
+
 def parse_ro(text):
     with warnings.catch_warnings():
         warnings.simplefilter("ignore")
@@ -72,6 +80,7 @@ def run_case(case_id, pre_abs, msg_abs, seed, keep_xml=False):
     table = {}
     # bind token names to the digests of what was actually rendered
     ro = parse_ro(ro_xml)
+    completed_of(ro)            # read the flag before the merge as well: it must not be remembered
     pre_proj = project.project_ro(ro)
     if not project.bind(pre_abs, pre_proj, table):
         raise Machinery("gamma/alpha round trip failed for running order of case %s" % case_id)
@@ -85,7 +94,7 @@ def run_case(case_id, pre_abs, msg_abs, seed, keep_xml=False):
         m = parse_msg(msg_xml)
         cls_seen = type(m).__name__
     except Exception as e:  # classification failed: the step cannot even start
-        ev.update(post=pre_abs, status="classify:" + type(e).__name__, warns=[], ser_eq=True)
+        ev.update(post=pre_abs, status="classify:" + type(e).__name__, warns=[], ser_eq=True, completed_acc=False)
         if keep_xml:
             ev["xml"] = {"ro": ro_xml, "msg": msg_xml}
         return ev
@@ -97,7 +106,7 @@ def run_case(case_id, pre_abs, msg_abs, seed, keep_xml=False):
     if status == "ok" and not isinstance(res, RunningOrder):
         status = "crash:BadReturn"
     post = project.rename(project.project_ro(target), table)
-    ev.update(post=post, status=status, warns=warns, ser_eq=(str(ro) == before))
+    ev.update(post=post, status=status, warns=warns, ser_eq=(str(ro) == before), completed_acc=completed_of(target))
     if keep_xml:
         ev["xml"] = {"ro": ro_xml, "msg": msg_xml, "after": str(target),
                      "error": repr(err) if err is not None else None}
